@@ -231,7 +231,11 @@ def run_property(pid, tier):
     replay_paths = []
     if violations:
         replay_paths = report_violations(pid, violations, kani_results)
+    printed = set()
     for f, k in known_hits:
+        if k["obligation"] in printed:
+            continue            # the verifier's clause and the native search may both meet the same listed finding
+        printed.add(k["obligation"])
         print("KNOWN-FINDING: property=%s %s" % (pid, k["what_fails"]))
     # ---------------------------------------------------------------- evidence
     # open known findings are reported on their own line and in `known_findings_open`; they are neither discharged nor counted
